@@ -107,7 +107,7 @@ PROPS = {}
 PROPS["C01"] = {
     "bin": "mc_trees",
     "quick": [step("mc_trees", CHK)],
-    "thorough": [step("mc_trees", CHK), step("mc_trees", FAST)],
+    "thorough": [step("mc_trees", CHK), step("mc_trees", FAST), step("mc_trees", ASAN)],
     "evidence": exploration_evidence(
         "bounded-exhaustive enumeration: every sequence of TINY(k,L) x value map x element type x alias, plus the "
         "BOUNDARY shape family; each case builds the real QWaveletTree and compares len/sigma/n_levels and every "
@@ -156,7 +156,7 @@ PROPS["C03"] = {
 PROPS["C05"] = {
     "bin": "mc_vectors",
     "quick": [step("mc_vectors", CHK)],
-    "thorough": [step("mc_vectors", CHK), step("mc_vectors", FAST)],
+    "thorough": [step("mc_vectors", CHK), step("mc_vectors", FAST), step("mc_vectors", ASAN)],
     "evidence": exploration_evidence(
         "bounded-exhaustive enumeration of quaternary sequences: all of TINYQ(L) and the BOUNDARY shape family (lengths around "
         "multiples of 128/256/512/2048/4096 and of the 8192-occurrence select sample, sigma 1..4, constant / periodic / runs / "
@@ -172,7 +172,7 @@ PROPS["C05"] = {
 PROPS["C06"] = {
     "bin": "mc_vectors",
     "quick": [step("mc_vectors", CHK)],
-    "thorough": [step("mc_vectors", CHK), step("mc_vectors", FAST)],
+    "thorough": [step("mc_vectors", CHK), step("mc_vectors", FAST), step("mc_vectors", ASAN)],
     "evidence": exploration_evidence(
         "bounded-exhaustive enumeration of bit vectors: all vectors of TINYBIT(L) and the structured family (lengths around "
         "multiples of 64/512/4096/32768, densities all-0/all-1/alternating/runs/one-or-zero-per-p for p around 1024 and 8192, "
@@ -186,7 +186,7 @@ PROPS["C06"] = {
 PROPS["C07"] = {
     "bin": "mc_vectors",
     "quick": [step("mc_vectors", CHK)],
-    "thorough": [step("mc_vectors", CHK), step("mc_vectors", FAST)],
+    "thorough": [step("mc_vectors", CHK), step("mc_vectors", FAST), step("mc_vectors", ASAN)],
     "evidence": exploration_evidence(
         "bounded-exhaustive enumeration of group shapes: every sequence of up to g groups of 1024 ones, each dense / at the "
         "65535-65536-65537 threshold / sparse, in every order, with partial last groups of several sizes and spans, the same "
